@@ -52,3 +52,22 @@ pub fn vec_extend<T>(v: &mut Vec<T>, w: Vec<T>)
 {
     v.extend(w)
 }
+
+// rule R24: a generic `I: IntoIterator` argument is modelled by the finite sequence of items it will yield.
+// TRUSTED: into_iter_model == IntoIterator::into_iter, src_next == Iterator::next (head / tail of that sequence).
+pub uninterp spec fn src_items<I: Iterator>(it: I) -> Seq<I::Item>;
+pub uninterp spec fn into_items<I: IntoIterator>(it: I) -> Seq<I::Item>;
+
+#[verifier::external_body]
+pub fn src_next<I: Iterator>(it: &mut I) -> (r: Option<I::Item>)
+    ensures
+        match r {
+            Some(x) => src_items(*old(it)).len() > 0 && x == src_items(*old(it))[0] && src_items(*final(it)) == src_items(*old(it)).skip(1),
+            None => src_items(*old(it)).len() == 0 && src_items(*final(it)).len() == 0,
+        }
+{ it.next() }
+
+#[verifier::external_body]
+pub fn into_iter_model<I: IntoIterator>(i: I) -> (r: I::IntoIter)
+    ensures src_items(r) == into_items(i)
+{ i.into_iter() }
